@@ -488,6 +488,141 @@ def capacity_exits(ctx, rep, rule):
     rep.info(rule, "capacity exits of value-consuming loops", str(n))
 
 
+# decoders whose only reason to refuse is the declared length (X.690: BOOLEAN one octet, NULL none; RFC 2578: IpAddress four)
+_LENGTH_ONLY_DECODERS = {"ber::bool::SnmpBool": 1, "ber::null::SnmpNull": 0, "ber::ipaddress::SnmpIpAddress": 4}
+
+
+def length_only_rejections(ctx, rep, rule):
+    """BOOLEAN, NULL and IpAddress are refused for a wrong length and for nothing else: every contents octet is a value
+    (BER: any non-zero octet is TRUE).  An error exit decided by the value of an input octet is reported; one decided by
+    the length must refuse exactly the lengths other than the type's."""
+    facts = ctx.facts
+    n = 0
+    for b in facts.body_list:
+        if not (b.impl_trait == "ber::BerDecoder" and b.name == "decode"):
+            continue
+        hit = [d for d in _LENGTH_ONLY_DECODERS if ("<%s as " % d) in b.path]
+        if not hit:
+            continue
+        want = _LENGTH_ONLY_DECODERS[hit[0]]
+        n += 1
+        prov = flow.Prov(b)
+        errs = flow.blocks_assigning_return(b, lambda rv: rv["k"] == "agg" and rv.get("vname") == "Err")
+        for g, pol, tgt in flow.deciding_guards(b, prov, errs):
+            t = g.term
+            on_octet = flow.mentions(t, lambda x: x[0] == "idx" and flow.mentions(x[1], lambda y: y == ("arg", 1))) or \
+                flow.mentions(t, lambda x: x[0] == "call" and (x[1] or "").split("::")[-1] in ("first", "get", "index", "next") and
+                              x[2] and flow.mentions(x[2][0], lambda y: y == ("arg", 1)))
+            key = "%s|error exit decided by %s" % (b.path, flow.fmt(t)[:50])
+            if on_octet:
+                rep.violation(rule, key, "the decoder refuses a contents octet by its value (%s): every octet of the right length is a value of this "
+                              "type (any non-zero octet is TRUE)" % flow.fmt(t)[:80], b.loc(g.line), obligation=True)
+                continue
+            okf = False
+            if t[0] == "bin" and t[1] in ("Ne", "Eq") and flow.field_path(t[2]) == ("arg2", "length") and t[3] == ("const", want):
+                okf = (t[1] == "Ne") == bool(pol)
+            if okf:
+                rep.ok(rule, key, "refuses lengths other than %d" % want, b.loc(g.line), obligation=True)
+            elif flow.mentions(t, lambda x: flow.field_path(x) == ("arg2", "length")):
+                rep.violation(rule, key, "the length test %s (%s edge) does not refuse exactly the lengths other than %d" % (flow.fmt(t)[:60], pol, want),
+                              b.loc(g.line), obligation=True)
+            else:
+                rep.inconclusive(rule, key, "guard not understood", b.loc(g.line))
+        # `match i[0] { 0 => .., 1 => .., _ => Err }`: a multi-way branch on an octet with an arm that ends in Err
+        preds = b.preds()
+        for blk in b.live_blocks():
+            t = blk.term
+            if not t or t["k"] != "switch":
+                continue
+            dt = prov.operand(t["discr"])
+            while dt[0] == "cast":
+                dt = dt[1]
+            if not (dt[0] == "idx" and flow.mentions(dt[1], lambda y: y == ("arg", 1))):
+                continue
+            for tgt in [x for _, x in t["targets"]] + [t["otherwise"]]:
+                cur = tgt
+                for _ in range(6):
+                    if cur in errs:
+                        rep.violation(rule, "%s|error arm of a match on %s" % (b.path, flow.fmt(dt)[:30]), "the decoder refuses a contents octet by its value "
+                                      "(an arm of the match on %s returns an error): every octet of the right length is a value of this type" % flow.fmt(dt)[:30],
+                                      b.loc(t.get("line")), obligation=True)
+                        break
+                    nb = b.blocks[cur]
+                    if len(preds.get(cur, [])) > 1 or not nb.term or nb.term["k"] in ("switch", "return", "unreachable"):
+                        break
+                    nx = nb.succs()
+                    if len(nx) != 1:
+                        break
+                    cur = nx[0]
+    if n < 3:
+        rep.violation(rule, "floor-length-only-decoders", "%d of the 3 decoders found" % n)
+
+
+def encoder_casts(ctx, rep, rule):
+    """Integers go on the wire through SnmpInt::push_ber with their full value: no other encoder narrows an integer field
+    on the way (a `x as u32` in front of `.into()` sends the value modulo 2^32 while the decoder hands back the whole i64)."""
+    facts = ctx.facts
+    n = 0
+    for b in facts.body_list:
+        if b.name != "push_ber" or "ber::int::SnmpInt" in b.path:
+            continue
+        n += 1
+        for blk in b.live_blocks():
+            for st in blk.stmts:
+                if st["k"] == "assign" and st["rv"]["k"] == "cast" and st["rv"].get("ck") == "IntToInt" and "const" not in st["rv"]["op"]:
+                    ft, tt = facts.types[st["rv"]["from"]], facts.types[st["rv"]["to"]]
+                    if ft.get("k") == "int" and tt.get("k") == "int" and (tt["bits"] < ft["bits"] or (tt["bits"] == ft["bits"] and ft.get("signed") != tt.get("signed"))):
+                        rep.violation(rule, "%s|cast %s->%s" % (b.path, ft["s"], tt["s"]), "an encoder narrows an integer before serialising it (%s as %s): values "
+                                      "outside the narrower type are sent as another number" % (ft["s"], tt["s"]), b.loc(st.get("line")), obligation=True)
+    if n < 8:
+        rep.violation(rule, "floor-encoders", "%d push_ber bodies found, floor is 8" % n)
+    else:
+        rep.ok(rule, "encoders|no narrowing cast", "%d push_ber bodies outside SnmpInt carry no narrowing integer cast" % n)
+
+
+def real_forms(ctx, rep, rule):
+    """Which REAL encodings are accepted, as a function of the first contents octet alone (X.690 8.5.6-8.5.9): binary
+    1xxxxxxx with base bits 6-5 other than 11, decimal 0000 0001..0011 (NR1-NR3), the special values 0100 0000..0011.
+    For each of the 256 octets the decoder is read with that octet fixed (cells): a defined form must be able to reach Ok,
+    a reserved one must not."""
+    facts = ctx.facts
+    b = facts.body("<ber::real::SnmpReal as ber::BerDecoder<'a>>::decode")
+    if b is None:
+        rep.missing(rule, "SnmpReal::decode")
+        return
+    rep.note_analysed("functions", [b.path])
+    prov = flow.Prov(b)
+    oks = set(flow.blocks_assigning_return(b, lambda rv: rv["k"] == "agg" and rv.get("vname") == "Ok"))
+
+    def first(t):
+        while t[0] == "cast":
+            t = t[1]
+        return t[0] == "idx" and t[2] == ("const", 0) and flow.mentions(t[1], lambda x: x == ("arg", 1))
+    if not any(first(x) for blk in b.live_blocks() if blk.term and blk.term["k"] == "switch" for x in flow.subterms(prov.operand(blk.term["discr"]))):
+        rep.inconclusive(rule, "SnmpReal::decode|forms", "no branch on the first contents octet found in this shape", b.loc())
+        return
+    defined = {1, 2, 3, 0x40, 0x41, 0x42, 0x43} | {v for v in range(0x80, 0x100) if ((v >> 4) & 3) != 3}
+    refused, admitted = [], []
+    for v in range(256):
+        def ev(t, v=v):
+            if first(t):
+                return v
+            if t[0] == "call" and (t[1] or "").endswith("BerHeader::is_empty"):
+                return 0
+            return None
+        blocks, _ = cells.feasible(b, prov, ev)
+        reach = bool(blocks & oks)
+        if v in defined and not reach:
+            refused.append(v)
+        if v not in defined and reach:
+            admitted.append(v)
+    rep.check(rule, "SnmpReal::decode|defined forms accepted", not refused, "all %d defined first octets can decode" % len(defined),
+              "REAL encodings whose first octet is %s are refused although X.690 defines them (e.g. 0x%02x): such values never reach the caller" %
+              (", ".join("0x%02x" % v for v in refused[:6]) + (" ..." if len(refused) > 6 else ""), refused[0] if refused else 0), b.loc(), obligation=True)
+    rep.check(rule, "SnmpReal::decode|reserved forms refused", not admitted, "reserved first octets are refused",
+              "reserved REAL encodings are decoded (first octet %s)" % ", ".join("0x%02x" % v for v in admitted[:6]), b.loc(), obligation=True)
+
+
 def hdr_contract(ctx, rep, rule):
     facts = ctx.facts
     scope = {"ber::header::BerHeader::from_ber", "ber::BerDecoder::from_ber", "<ber::option::SnmpOption<'a> as ber::BerDecoder<'a>>::from_ber",
